@@ -1,7 +1,7 @@
 #!/bin/bash
 # usage: confirm_mut.sh <Cxx> <mdir>  — confirms a seeded mutation in /tmp/scratch: applies, builds, suite passes, demo fails with / passes without
 ID=$1; M=$2
-S=/tmp/scratch
+S=${SCRATCH_CONFIRM:-/tmp/scratch}
 export GOFLAGS=-mod=mod GOPROXY=off
 git -C $S checkout -q --detach $(git -C /repo rev-parse HEAD) 2>/dev/null; git -C $S checkout -q -- .; git -C $S clean -fdq
 res="id=$ID m=$(basename $M)"
@@ -16,12 +16,12 @@ rundemo() {
     tag=$(grep -m1 '^//go:build' $demo | sed 's#//go:build ##')
     cp $demo $S/$pkgdir/zz_mutdemo_test.go
     tests=$(grep -oE '^func (Test[A-Za-z0-9_]+)' $demo | awk '{print $2}' | paste -sd'|')
-    (cd $S && go test -tags "verif $tag" -vet=off -count=1 -run "^($tests)\$" ./$pkgdir/ >/tmp/mutdemo.out 2>&1); rc=$?
+    (cd $S && go test -tags "verif $tag" -vet=off -count=1 -run "^($tests)\$" ./$pkgdir/ >/tmp/mutdemo.$$.out 2>&1); rc=$?
     rm -f $S/$pkgdir/zz_mutdemo_test.go
     echo $rc
   elif [ "$kind" = main ]; then
     mkdir -p $S/zzmutdemo && cp $demo $S/zzmutdemo/main.go
-    (cd $S && go run ./zzmutdemo >/tmp/mutdemo.out 2>&1); rc=$?
+    (cd $S && go run ./zzmutdemo >/tmp/mutdemo.$$.out 2>&1); rc=$?
     rm -rf $S/zzmutdemo
     echo $rc
   else echo nodemo; fi
